@@ -1,4 +1,5 @@
 import PytaskProofs.Lemmas.EngineInv
+import PytaskProofs.Lemmas.EngineExample
 /-!
 # C03 — nothing is re-executed unless something it depends on changed
 
@@ -78,5 +79,23 @@ theorem C03_repeat (F : BodyFn) (P : Project) (cfg1 cfg2 : Cfg) (w : World) (pic
         · exact (final_rowsMatch hwf hg hdry hso1 hloop1 rfl _ h (Or.inr (Or.inr rfl))).1
     obtain ⟨h3, h4⟩ := quiet_buildLoop F P g2 cfg2 r1.w hforce hrows picks2 so2 so2' _ s2 rfl hloop2
     exact ⟨by rw [hl2, h4], by rw [hw2, h3]⟩
+
+/-! ## non-vacuity (project `exP`: input 10 → task 0 → 20 → task 1 → 21, 22; see `Lemmas/EngineExample.lean`) -/
+
+/-- The hypotheses of `C03_repeat` hold for the first build of the example project; hence every
+later non-forced build of the world it left executes nothing. -/
+example : ∀ (cfg2 : Cfg) (picks2 : List Nat) (r2 : Result), cfg2.force = false →
+    build exF exP cfg2 exR1.w picks2 = .ok r2 → r2.log = [] ∧ r2.w = exR1.w := by
+  intro cfg2 picks2 r2 hf h2
+  refine C03_repeat exF exP {} cfg2 exW [0, 1] picks2 exR1 r2 exWF exBuild1 rfl ?_ hf h2
+  intro t ht
+  rcases mem_exP ht with rfl | rfl <;> (left; decide)
+
+/-- … and the claim is not empty: the first build did execute both tasks, a build after an edit of
+the input executes both again, a build after an edit of task 1's module executes task 1 only
+(task 0 is reported unchanged), and a forced build re-executes everything. -/
+example : exR1.log = [0, 1] ∧ exR2.log = [0, 1] ∧ exR3.log = [1] ∧
+    (match build exF exP { force := true } exR1.w [0, 1] with | .ok r => r.log | .error _ => []) = [0, 1] := by
+  decide
 
 end Pytask
